@@ -70,8 +70,11 @@ func VerifFaults() {
 			return nil
 		}
 		err := errGeneric
-		if verifrt.Choice("errkind", 2) == 1 {
+		switch verifrt.Choice("errkind", 3) {
+		case 1:
 			err = fs.ErrPermission
+		case 2:
+			err = fs.ErrNotExist // e.g. the entry vanished after it was listed
 		}
 		injected = append(injected, fault{op, err})
 		return err
